@@ -115,6 +115,7 @@ type interpreter struct {
 	syncMaps        map[*value]*omap
 	counters        map[*value]*int
 	symxPkg         *ssa.Package       // verif/symx of the loaded program (virtual file system entry points)
+	fuelStart       int64              // fuel at the start of the current path (symx.Cost)
 	pools           map[*value][]value // sync.Pool model: retained items per pool (LIFO)
 	wrapped         map[*value]iface
 	params          map[string]int
